@@ -12,6 +12,7 @@ import XzVerif.Proofs.GoSrcLen
 import XzVerif.Proofs.GoSrcDist
 import XzVerif.Proofs.GoSrcLit
 import XzVerif.Proofs.GoSrcOpEnc
+import XzVerif.Proofs.GoSrcOp2
 /-
   C02 — Everything the xz writer emits is a valid .xz file for other implementations.
 
@@ -314,6 +315,33 @@ theorem C02_source_write_operations (fuel : Nat) (g : GoSrc.T_encoder) (s : St) 
   ⟨fun l => GoSrcP.writeLiteral_refines fuel g l s tbl p e Lim pos bat sr rel rest hpos hposlt hbat hbat256 hcl hL hfuel,
    fun m dist n hd hn hd1 hd2 hnr =>
      GoSrcP.writeMatch_refines fuel g m s tbl p e Lim pos bat dist n sr rel rest hd hn hd1 hd2 hnr hpos hposlt hbat hbat256 hcl hL hfuel⟩
+
+/-- `encoder.writeOp` from the source: an operation is refused — with NOTHING changed — exactly when
+    `Available() = N − (cacheLen + 4)` is below the margin, i.e. `Lim < digits + 4 + margin`, the test of `W2.encodeOp`
+    (Model/Writer2.lean) whose constant `opLenMargin ≥ 25` the no-failure theorem of C08 needs (defect F17); otherwise it
+    is `writeLiteral` / `writeMatch` by the operation's dynamic type -/
+theorem C02_source_writeOp_margin (fuel : Nat) (g : GoSrc.T_encoder) (op : GoSrc.S_operation) (e : Rc.Enc) (Lim m : Nat)
+    (rel : GoSrcP.EncRel g.re e Lim) (hm : g.margin.toNat = m) (hm' : m < 2 ^ 32)
+    (hcl : e.cacheLen < 2 ^ 62) (hL : Lim < 2 ^ 63) :
+    GoSrc.encoder_writeOp fuel g op =
+      if Lim < e.out.length + e.cacheLen + 4 + m then Go.Res.ok (Go.Err.named "ErrLimit", g)
+      else match op with
+        | .lit x => GoSrc.encoder_writeLiteral fuel g x
+        | .match_ x => GoSrc.encoder_writeMatch fuel g x
+        | .none => Go.Res.panic "unexpected operation" :=
+  GoSrcP.writeOp_spec fuel g op e Lim m rel hm hm' hcl hL
+
+/-- lzma/properties.go from the source: `PropertiesForCode` / `Properties.Code` are the format's
+    `code = (pb·5 + lp)·9 + lc` and its inverse on the 225 codes -/
+theorem C02_source_properties_code :
+    (∀ c : BitVec 8, if c.toNat ≤ 224 then
+        GoSrc.PropertiesForCode c = ({ LC := BitVec.ofNat 64 (c.toNat % 9), LP := BitVec.ofNat 64 (c.toNat / 9 % 5),
+                                       PB := BitVec.ofNat 64 (c.toNat / 45 % 5) }, Go.Err.nil)
+      else (GoSrc.PropertiesForCode c).2 = Go.Err.new "lzma: invalid properties code") ∧
+    (∀ p : GoSrc.T_Properties, p.LC.toNat ≤ 8 → p.LP.toNat ≤ 4 → p.PB.toNat ≤ 4 →
+      (GoSrc.Properties_Code p).toNat = (p.PB.toNat * 5 + p.LP.toNat) * 9 + p.LC.toNat) ∧
+    (∀ c : BitVec 8, c.toNat ≤ 224 → GoSrc.Properties_Code (GoSrc.PropertiesForCode c).1 = c) :=
+  ⟨GoSrcP.PropertiesForCode_spec, GoSrcP.Properties_Code_spec, GoSrcP.Properties_Code_roundtrip⟩
 
 /-- the checked path is the codec's path whenever the limit is not hit (`encPath` of Codec/LzmaDec.lean) -/
 theorem C02_source_checked_path (L : Nat) (t : Tbl) (e : Rc.Enc) (π : Path) (t' : Tbl) (e' : Rc.Enc)
